@@ -645,7 +645,7 @@ ALPHABET = [
 ]
 # thorough explores depth 4 over the first N_THOROUGH letters after this
 # permutation (most informative first); quick samples from all of them
-ALPHA_THOROUGH = 36
+ALPHA_THOROUGH = 40
 
 
 def alphabet_for(tier):
@@ -655,8 +655,7 @@ def alphabet_for(tier):
     drop = {("set", b"[2][0+]#"), ("set_subtree", b"[1].k."),
             ("delete", b"[2]"), ("type", b"[1]"), ("keys", b"[1]"),
             ("get", b"[0]"), ("count", b"[x]"), ("delete", b"[0]x"),
-            ("set", b"a.#"), ("delete", b"s"), ("count", b"a[0]"),
-            ("get", b""), ("type", b"a..b")}
+            ("set", b"a.#")}
     idx = [i for i, a in enumerate(ALPHABET) if a not in drop]
     return idx[:ALPHA_THOROUGH] if len(idx) > ALPHA_THOROUGH else idx
 
